@@ -4,7 +4,7 @@
    says it behaves as the model Pat/Ere.v on the regex strings inside that model (checked against the real
    libc by the correspondence run).  [st0] is the arbitrary prior state of the (re-used / recycled) object. *)
 From Coq Require Import List NArith Bool.
-From Muscle Require Import Gen.Consts Pat.Ere Pat.EreProofs Pat.Translate Pat.Simple Pat.PatProofs.
+From Muscle Require Import Gen.Consts Pat.Ere Pat.EreProofs Pat.Translate Pat.Simple Pat.RangeProofs Pat.UvProofs Pat.SimpleParse Pat.PatSpec Pat.PatProofs.
 Import ListNotations.
 Local Open Scope N_scope.
 
@@ -51,6 +51,17 @@ Theorem C15_translate_correct_partial :
 Proof. exact translate_correct. Qed.
 Print Assumptions C15_translate_correct_partial.
 
+(* The same, read over pattern STRINGS: [sparse] is an executable reader of the documented grammar; every
+   string it accepts (and its negation ~p) matches exactly what the tree it returns denotes. *)
+Theorem C15_translate_correct_str_partial :
+  forall engine, (forall re, ere_compile re <> CUnsupported -> engine re = ere_engine re) ->
+  forall p al st0 s,
+    sparse p = Some al ->
+    (matches (fst (set_pattern engine st0 p true)) s = true <-> den_alt al s) /\
+    (matches (fst (set_pattern engine st0 (ch_tilde :: p) true)) s = true <-> ~ den_alt al s).
+Proof. exact translate_correct_str. Qed.
+Print Assumptions C15_translate_correct_str_partial.
+
 (* Escaping a string with EscapeRegexTokens yields a pattern that matches that string and no other. *)
 Theorem C15_escape_exact :
   forall engine, (forall re, ere_compile re <> CUnsupported -> engine re = ere_engine re) ->
@@ -78,6 +89,63 @@ Theorem C15_multi_complete :
     is_unique (fst (set_pattern engine st0 p true)) = false.
 Proof. exact multi_complete. Qed.
 Print Assumptions C15_multi_complete.
+
+(* The escape of a string is reported unique (so the traversal's hash-lookup path is taken for it). *)
+Theorem C15_escape_unique :
+  forall engine s st0, is_unique (fst (set_pattern engine st0 (escape s) true)) = true.
+Proof. exact escape_unique. Qed.
+Print Assumptions C15_escape_unique.
+
+(* RANGE LISTS.  Full statement: for every documented list "<clause,..>" (optionally negated) and EVERY
+   subject s:  Match s = true <-> s is a decimal numeral of an integer inside one of the ranges.
+   Proved part: every such list, every subject that is a decimal numeral (leading zeros allowed) of a value
+   below 2^32.  The full statement fails on subjects with trailing junk (F25) and values >= 2^32 (F26):
+   C15_range_junk_refuted, C15_range_wrap_refuted. *)
+Theorem C15_range_doc_partial :
+  forall engine neg cs st0 k v,
+    cs <> [] -> forallb clause_ok cs = true -> v <= u32_max ->
+    matches (fst (set_pattern engine st0 (print_range_pattern neg cs) true)) (repeat 48 k ++ print_num v) =
+    xorb neg (existsb (fun c => clause_has c v) cs).
+Proof. exact range_doc. Qed.
+Print Assumptions C15_range_doc_partial.
+
+(* the witnesses replayed on the real code as findings F24, F25, F26 *)
+Theorem C15_class_meta_refuted :
+  exists neg items c,
+    class_has neg items c = true /\
+    matches (fst (set_pattern ere_engine sm_init (print_pattern false (SLast (SCons (SClass neg items) SNil))) true)) [c] = false.
+Proof. exact class_meta_refuted. Qed.
+Print Assumptions C15_class_meta_refuted.
+
+Theorem C15_range_junk_refuted :
+  exists cs s, ~ den_ranges cs s /\
+    matches (fst (set_pattern ere_engine sm_init (print_range_pattern false cs) true)) s = true.
+Proof. exact range_junk_refuted. Qed.
+Print Assumptions C15_range_junk_refuted.
+
+Theorem C15_range_wrap_refuted :
+  exists cs s, ~ den_ranges cs s /\
+    matches (fst (set_pattern ere_engine sm_init (print_range_pattern false cs) true)) s = true.
+Proof. exact range_wrap_refuted. Qed.
+Print Assumptions C15_range_wrap_refuted.
+
+(* A pattern reported "list of unique values" matches exactly its comma-separated values. *)
+Theorem C15_uvlist_exact :
+  forall engine, (forall re, ere_compile re <> CUnsupported -> engine re = ere_engine re) ->
+  forall p st0 t,
+    is_uvlist (fst (set_pattern engine st0 p true)) = true ->
+    (matches (fst (set_pattern engine st0 p true)) t = true <-> In t (uv_segs p false [])).
+Proof. exact uvlist_exact. Qed.
+Print Assumptions C15_uvlist_exact.
+
+(* The laws of the client interface Pat/PatSpec.v hold for the model (used by C05). *)
+Theorem C15_model_laws :
+  forall engine, (forall re, ere_compile re <> CUnsupported -> engine re = ere_engine re) ->
+    unique_sound_law (model_ops engine) /\ multi_complete_law (model_ops engine) /\
+    escape_exact_law (model_ops engine) /\ escape_unique_law (model_ops engine) /\
+    uvlist_sound_law (model_ops engine) uv_values /\ uvlist_not_unique_law (model_ops engine).
+Proof. exact model_laws. Qed.
+Print Assumptions C15_model_laws.
 
 (* ---- non-vacuity: the premises are satisfiable by non-trivial instances *)
 
@@ -107,3 +175,26 @@ Example C15_multi_example :
   matches (fst (set_pattern ere_engine sm_init [97; 42] true)) [97; 98] = true /\
   is_unique (fst (set_pattern ere_engine sm_init [97; 42] true)) = false.
 Proof. vm_compute. repeat split; reflexivity. Qed.
+
+(* a range list with every clause form, and a numeral with leading zeros inside it:  ~<7,10-20,-3,4000000000-,->  vs 0015 *)
+Example C15_range_example :
+  forallb clause_ok [RSingle 7; RBetween 20 10; RUpTo 3; RFrom 4000000000] = true /\
+  print_range_pattern false [RSingle 7; RBetween 20 10; RUpTo 3; RFrom 4000000000] =
+    [60; 55; 44; 50; 48; 45; 49; 48; 44; 45; 51; 44; 52; 48; 48; 48; 48; 48; 48; 48; 48; 48; 45; 62] /\
+  matches (fst (set_pattern ere_engine sm_init (print_range_pattern false [RSingle 7; RBetween 20 10; RUpTo 3; RFrom 4000000000]) true))
+          (repeat 48 2 ++ print_num 15) = true /\
+  matches (fst (set_pattern ere_engine sm_init (print_range_pattern false [RSingle 7; RBetween 20 10; RUpTo 3; RFrom 4000000000]) true))
+          (print_num 8) = false.
+Proof. vm_compute. repeat split; reflexivity. Qed.
+
+(* a list-of-unique-values pattern with an escaped comma and an empty value:  a\,b,,c  *)
+Example C15_uvlist_example :
+  is_uvlist (fst (set_pattern ere_engine sm_init [97; 92; 44; 98; 44; 44; 99] true)) = true /\
+  uv_segs [97; 92; 44; 98; 44; 44; 99] false [] = [[97; 44; 98]; []; [99]] /\
+  uv_values [97; 92; 44; 98; 44; 44; 99] = [[97; 44; 98]; [99]] /\
+  matches (fst (set_pattern ere_engine sm_init [97; 92; 44; 98; 44; 44; 99] true)) [97; 44; 98] = true.
+Proof. vm_compute. repeat split; reflexivity. Qed.
+
+(* the reader accepts the example pattern string and returns the example tree *)
+Example C15_sparse_example : sparse (print_pattern false ex_alt) = Some ex_alt.
+Proof. vm_compute. reflexivity. Qed.
